@@ -157,6 +157,23 @@ def check_ahb(case):
                     fail("valid-raised", f"{text!r} is valid by structure but raised under rc={assignment} fc={truth}: {res!r}")
             else:
                 fail("foreign-exception", f"{text!r} under rc={assignment} fc={truth} raised {res!r}")
+    # (1b) the same through the shipped ContentEvaluationResult based evaluators, whose data also contain entries for
+    # keys that the expression does not mention (a result usually covers a whole message)
+    for assignment in list(_assignments(case, rc_keys))[:2]:
+        _setup_cer_based()
+        _CER.set(sut.make_cer(rc=assignment, fc=case["truths"][-1], hints=gen.hints_for(hint_keys), extras=True))
+        res = sut.call(api.evaluate_ahb_expression_tree, sut.call(api.resolve, text).value)
+        if res.ok:
+            if verdict == "invalid":
+                fail("invalid-not-raised", f"{text!r} is invalid by structure but evaluate_ahb_expression_tree (ContentEvaluationResult "
+                     f"based evaluators) returned under rc={assignment}")  # fmt: skip
+        elif res.is_a(sut.InvalidExpressionError):
+            if verdict == "valid":
+                fail("valid-raised", f"{text!r} is valid by structure but raised with ContentEvaluationResult based evaluators "
+                     f"under rc={assignment}: {res!r}")  # fmt: skip
+        else:
+            fail("foreign-exception", f"{text!r} with ContentEvaluationResult based evaluators (data with additional, unused "
+                 f"entries) under rc={assignment} raised {res!r}")  # fmt: skip
     # (2) the validity check, for the string and for the tree
     if case["validity_check"]:
         _setup_cer_based()
